@@ -60,6 +60,8 @@ def make_transformer(I, **flags):
 
     def V(node):
         visited.append(node)
+        if isinstance(node, ast.Starred) and id(node.value) in replaced:
+            node.value = replaced[id(node.value)]  # generic_visit rewrites the children of the node it is given, in place
         return replaced.get(id(node), node)
 
     self.fields.update(
@@ -123,6 +125,25 @@ def replay_call(inputs, clause):
 
     src = inputs.get("source")
     if not src or inputs.get("inBehavior"):
+        return None
+    if inputs.get("fresh_children"):
+        # arguments whose visitor builds a new node without location: Scenic vector expressions
+        import re
+
+        from scenic.core.errors import ScenicSyntaxError
+
+        head, _, rest = src.partition("(")
+        src2 = head + "(" + re.sub(r"\b([a-z])\b(?!=)", r"(\1 @ 2)", rest)
+        try:
+            tree = _real_compile(src2)
+        except ScenicSyntaxError:
+            return None
+        except Exception as e:
+            return f"`{src2.strip()}`: compilation escapes with {type(e).__name__}: {e}"
+        star_lines = [i + 1 for i, l in enumerate(src2.split("\n")) if "*(" in l]
+        got = sorted(n.lineno for n in ast.walk(tree) if isinstance(n, ast.Starred))
+        if src2.count("*") and got != sorted(star_lines) and len(src2.split("\n")) > 2:
+            return f"`{src2.strip()}`: star arguments are on lines {sorted(star_lines)}, the compiled Starred nodes on lines {got}"
         return None
     tree = _real_compile(src)
     d = first_difference(tree, ast.parse(src))
@@ -233,7 +254,18 @@ def register(reg):
             self.replaced[id(node.func)] = ast.copy_location(ast.Call(_name("ego"), [], []), node.func)
             replaced = True
         orig = dict(func=node.func, args=list(node.args), keywords=list(node.keywords), ids={id(x): getattr(x, "id", None) for x in ast.walk(node)})
-        env.vars.update(self=self, node=node, _orig=orig, _inb=in_behavior, _src=src, _replaced=replaced)
+        orig["values"] = {id(a): a.value for a in node.args if isinstance(a, ast.Starred)}
+        orig["names"] = [x for a in list(node.args) + list(node.keywords) + ([node.func] if not isinstance(node.func, ast.Name) else []) for x in ast.walk(a) if isinstance(x, ast.Name)]
+        orig["lines"] = {id(x): getattr(x, "lineno", None) for x in ast.walk(node)}
+        # what the visitors of the Scenic operators (visit_VectorOp, visit_New, ...) do: the visited child is a freshly built
+        # node WITHOUT a location (fix_missing_locations fills it in later)
+        fresh = eng.choose(2, "visited arguments are freshly built nodes without location?") == 1
+        if fresh:
+            for a in node.args:
+                tgt = a.value if isinstance(a, ast.Starred) else a
+                self.replaced[id(tgt)] = ast.Call(func=ast.Name(id="Vector", ctx=ast.Load()), args=[], keywords=[])
+        env.vars.update(self=self, node=node, _orig=orig, _inb=in_behavior, _src=src, _replaced=replaced, _fresh=fresh)
+        eng.input_syms.append(("fresh_children", C.Const(None), fresh))
         eng.input_syms.append(("source", C.Const(None), src))
         eng.input_syms.append(("inBehavior", C.Const(None), in_behavior))
 
@@ -262,12 +294,14 @@ def register(reg):
         if want_id is not None:
             eng.check(f"{n}#str_int_float_renamed_in_call_position", getattr(newfunc, "id", None) == want_id, detail=f"{getattr(newfunc, 'id', None)} vs {want_id}")
         # nothing else is renamed (arguments named str, attributes named str)
-        others = [x for a in orig["args"] + orig["keywords"] + ([orig["func"]] if not isinstance(orig["func"], ast.Name) else []) for x in ast.walk(a) if isinstance(x, ast.Name)]
+        others = orig["names"]
         eng.check(f"{n}#names_outside_call_position_are_not_renamed", all(x.id == orig["ids"][id(x)] for x in others))
         eng.check(f"{n}#keywords_are_the_visited_keywords_in_order", as_list(r.keywords) == orig["keywords"] and all(any(k is v for v in self.visited) for k in orig["keywords"]))
+        vis = lambda a: self.replaced.get(id(a), a)  # the visited form of an argument
         if not wrap:
-            eng.check(f"{n}#without_star_arguments_the_call_shape_is_kept", r.func is newfunc and len(rargs) == len(orig["args"]) and all(a is b for a, b in zip(rargs, orig["args"])))
+            eng.check(f"{n}#without_star_arguments_the_call_shape_is_kept", r.func is newfunc and len(rargs) == len(orig["args"]) and all(a is vis(b) for a, b in zip(rargs, orig["args"])))
             eng.check(f"{n}#every_argument_is_visited_once", all(sum(1 for v in self.visited if v is a) == 1 for a in orig["args"]))
+            eng.check(f"{n}#line_of_produced_node.Call", getattr(r, "lineno", None) == node.lineno and getattr(r, "end_lineno", None) == node.end_lineno)
             return
         eng.check(f"{n}#star_arguments_route_the_call_through_callWithStarArgs", isinstance(r.func, ast.Name) and r.func.id == "callWithStarArgs" and len(rargs) == 1 + len(orig["args"]))
         ok_args, ok_lines = True, True
@@ -275,20 +309,33 @@ def register(reg):
             if isinstance(old, ast.Starred):
                 inner = new.value if isinstance(new, ast.Starred) else None
                 iargs = as_list(inner.args) if isinstance(inner, ast.Call) else []
-                good = isinstance(inner, ast.Call) and isinstance(inner.func, ast.Name) and inner.func.id == "wrapStarredValue" and len(iargs) == 2 and iargs[0] is old.value and isinstance(iargs[1], ast.Constant) and iargs[1].value == old.value.lineno
+                oval = orig["values"][id(old)]
+                good = isinstance(inner, ast.Call) and isinstance(inner.func, ast.Name) and inner.func.id == "wrapStarredValue" and len(iargs) == 2 and iargs[0] is vis(oval) and isinstance(iargs[1], ast.Constant) and iargs[1].value == orig["lines"][id(oval)]
                 ok_args = ok_args and good
             else:
-                ok_args = ok_args and new is old
+                ok_args = ok_args and new is vis(old)
         eng.check(f"{n}#each_star_argument_is_wrapped_by_wrapStarredValue_with_its_line", ok_args)
         # line numbers: what compileScenicAST does next (fix_missing_locations) must give every new node the line of
         # the node it replaces
         import copy
 
         fixed = ast.fix_missing_locations(_pythonize(copy.copy(r)))
+        kinds = {k: True for k in ("Call", "Name_callWithStarArgs", "Starred", "Call_wrapStarredValue", "Name_wrapStarredValue", "Constant_line_argument")}
+        kinds["Call"] = getattr(fixed, "lineno", None) == node.lineno
+        kinds["Name_callWithStarArgs"] = getattr(fixed.func, "lineno", None) == node.lineno
         for new, old in zip(as_list(fixed.args)[1:], orig["args"]):
             if isinstance(old, ast.Starred):
-                ok_lines = ok_lines and getattr(new, "lineno", None) == old.lineno and getattr(getattr(new, "value", None), "lineno", None) == old.value.lineno
+                sline, vline = orig["lines"][id(old)], orig["lines"][id(orig["values"][id(old)])]
+                inner = getattr(new, "value", None)
+                ok_lines = ok_lines and getattr(new, "lineno", None) == sline and getattr(inner, "lineno", None) == vline
+                kinds["Starred"] = kinds["Starred"] and getattr(new, "lineno", None) == sline
+                kinds["Call_wrapStarredValue"] = kinds["Call_wrapStarredValue"] and getattr(inner, "lineno", None) == vline
+                kinds["Name_wrapStarredValue"] = kinds["Name_wrapStarredValue"] and getattr(getattr(inner, "func", None), "lineno", None) == vline
+                ia = as_list(getattr(inner, "args", []))
+                kinds["Constant_line_argument"] = kinds["Constant_line_argument"] and len(ia) == 2 and getattr(ia[1], "lineno", None) == vline
         eng.check(f"{n}#wrapped_star_argument_keeps_its_line", ok_lines, detail="the new Starred/wrapStarredValue nodes get the line of the whole call")
+        for k, ok in kinds.items():
+            eng.check(f"{n}#line_of_produced_node.{k}", ok)
 
     def _pythonize(node):
         """PList fields -> python lists (so that stdlib helpers can walk the produced tree)."""
@@ -313,7 +360,7 @@ def register(reg):
             post=post_call,
             raises=[C.Raises("Exception", mode="may")],
             replay=replay_call,
-            properties=("C09",),
+            properties=("C09", "C10"),
         )
     )
 
